@@ -387,8 +387,8 @@ def run(tier, seed):
     shapes = list({"\n".join(s): s for s in shapes}.values())
     n_all = len(shapes)
     if tier == "quick":
+        # is_blocking itself is checked on every shape in both tiers (a few seconds); only the consumers are sampled
         cons_shapes = rnd.sample(shapes, 400)
-        shapes = rnd.sample(shapes, 8000)
     else:
         cons_shapes = rnd.sample(shapes, min(len(shapes), 5000))
     have = {"\n".join(x) for x in cons_shapes}
@@ -396,7 +396,7 @@ def run(tier, seed):
     stmts = [f"{e}" for e in EXPRS] + STMTS
     ctx = mp.get_context("fork")
     with ctx.Pool(16, maxtasksperchild=300) as pool:
-        r1 = pool.map(_w1, shapes, chunksize=50)
+        r1 = pool.map(_w1, shapes, chunksize=200)
         r2 = pool.map(_w2, stmts, chunksize=4)
         r3 = pool.map(_w3, cons_shapes, chunksize=5)
         callees = callee_programs()
@@ -426,7 +426,7 @@ def run(tier, seed):
                 elif r.get("blocking") or r.get("pointless"):
                     nontriv += 1
         res = {"name": name, "function": fn_desc, "contract": contract, "space": space, "bound": "nesting <= 2", "evaluations": len(inputs),
-               "distinct_nontrivial": nontriv if nontriv else len(inputs), "exhaustive": (name == "c16-has-side-effect-executed") or (name == "c16-is-blocking-executed" and tier == "thorough"), "failures": _cap(fl),
+               "distinct_nontrivial": nontriv if nontriv else len(inputs), "exhaustive": name in ("c16-has-side-effect-executed", "c16-is-blocking-executed"), "failures": _cap(fl),
                "samples": [inputs[0] if isinstance(inputs[0], str) else "\n".join(inputs[0]), inputs[-1] if isinstance(inputs[-1], str) else "\n".join(inputs[-1])]}
         if errs:
             res["error"] = f"{len(errs)} harness errors, first: {errs[0]}"
